@@ -39,9 +39,15 @@ func envInt(name string, def int) int {
 	return def
 }
 
-func vSeed() int64   { return int64(envInt("VERIF_SEED", 1)) }
-func vTier() string  { t := os.Getenv("VERIF_TIER"); if t == "" { t = "quick" }; return t }
-func vThorough() bool { return vTier() == "thorough" }
+func vSeed() int64 { return int64(envInt("VERIF_SEED", 1)) }
+func vTier() string {
+	t := os.Getenv("VERIF_TIER")
+	if t == "" {
+		t = "quick"
+	}
+	return t
+}
+func vThorough() bool             { return vTier() == "thorough" }
 func vRand(salt int64) *rand.Rand { return rand.New(rand.NewSource(vSeed()*1000003 + salt)) }
 
 // ---------------------------------------------------------------- tracer
@@ -308,10 +314,33 @@ func (w pipeWriteCloser) Close() error {
 // ---------------------------------------------------------------- independent codec
 
 const (
-	tInit = 1; tVersion = 2; tOpen = 3; tClose = 4; tRead = 5; tWrite = 6; tLstat = 7; tFstat = 8
-	tSetstat = 9; tFsetstat = 10; tOpendir = 11; tReaddir = 12; tRemove = 13; tMkdir = 14; tRmdir = 15
-	tRealpath = 16; tStat = 17; tRename = 18; tReadlink = 19; tSymlink = 20
-	tStatus = 101; tHandle = 102; tData = 103; tName = 104; tAttrs = 105; tExtended = 200; tExtReply = 201
+	tInit     = 1
+	tVersion  = 2
+	tOpen     = 3
+	tClose    = 4
+	tRead     = 5
+	tWrite    = 6
+	tLstat    = 7
+	tFstat    = 8
+	tSetstat  = 9
+	tFsetstat = 10
+	tOpendir  = 11
+	tReaddir  = 12
+	tRemove   = 13
+	tMkdir    = 14
+	tRmdir    = 15
+	tRealpath = 16
+	tStat     = 17
+	tRename   = 18
+	tReadlink = 19
+	tSymlink  = 20
+	tStatus   = 101
+	tHandle   = 102
+	tData     = 103
+	tName     = 104
+	tAttrs    = 105
+	tExtended = 200
+	tExtReply = 201
 )
 
 var typNames = map[byte]string{
@@ -346,12 +375,12 @@ func mkFrame(typ byte, body []byte) []byte {
 }
 
 type wattrs struct {
-	Flags              uint32
-	Size               uint64
-	UID, GID           uint32
-	Perm               uint32
-	Atime, Mtime       uint32
-	Ext                [][2]string
+	Flags        uint32
+	Size         uint64
+	UID, GID     uint32
+	Perm         uint32
+	Atime, Mtime uint32
+	Ext          [][2]string
 }
 
 func (w *wb) attrs(a wattrs) *wb {
@@ -516,10 +545,10 @@ func (r *rb) attrs() wattrs {
 
 // wframe is a decoded frame (request or response), by the independent codec.
 type wframe struct {
-	Typ    byte
-	ID     uint32
-	Raw    []byte // body after the type byte
-	Bad    bool   // body did not parse for its type
+	Typ byte
+	ID  uint32
+	Raw []byte // body after the type byte
+	Bad bool   // body did not parse for its type
 	// responses
 	Code   uint32
 	Msg    string
